@@ -115,7 +115,7 @@ func runUpgradeCase(ta *TestApp, seed uint64, idx int, rep *Report, profile stri
 			case 1: // one short
 				p.InitiallyLocked = sdk.NewIntFromBigInt(new(big.Int).Sub(new(big.Int).Add(new(big.Int).Add(sumC, p.Sent.BigInt()), p.Withdrawn.BigInt()), bi(1)))
 			case 2: // the withdrawn history decides: locked-after-sent >= sum > currently locked
-				if p.Withdrawn.IsZero() {
+				if p.Withdrawn.IsZero() || p.Withdrawn.BigInt().Cmp(sumC) > 0 { // keep the pool's remainder non-negative
 					p.Withdrawn = sdk.NewInt(1 + rng.I64n(1000000))
 				}
 				p.InitiallyLocked = sdk.NewIntFromBigInt(new(big.Int).Add(new(big.Int).Add(sumC, p.Sent.BigInt()), rng.BigBelow(p.Withdrawn.BigInt())))
